@@ -976,6 +976,10 @@ class ExcelCompiler:
             if address.address not in self.cell_map:
                 self._gen_graph(address)
 
+        if self.graph_todos:
+            # connect the cells a build which failed has left unconnected
+            self._process_gen_graph()
+
         result = self._evaluate(str(address))
         if isinstance(result, tuple):
             # trim excess dimensions
